@@ -39,7 +39,12 @@ Proof. exact interrupt_flush. Qed.
 Print Assumptions C06_interrupt_flush.
 
 (* The same for every way a serial run ends (normal end, --continue or not, cyclic dependency, "hold on"
-   dead-lock = the internal errors that escape run_tasks): exactly one close, after everything else but teardowns *)
+   dead-lock = the internal errors that escape run_tasks): exactly one close, after everything else but teardowns.
+   Correspondence (harness/c06.py part (1d)): runs ended by StopCycle / StopHold after tasks completed are compared
+   with [run_serial] (trace, exit code 3, DB).  The other exceptions that can leave Runner.run_tasks -- a BaseException
+   subclass other than KeyboardInterrupt/SystemExit from an action, an exception of an uptodate callable or of a
+   value-saver -- are NOT ends of Model/Runner.v ([stop] has no constructor for them): for those the harness judges
+   the real runs by its oracles only (close exactly once, DB content, next run); no theorem here speaks about them. *)
 Theorem C06_every_exit_flushes : forall tasks wake_rank calc_rank continue_ always fuel selected r s,
   serial tasks wake_rank calc_rank continue_ always fuel (r_init selected) None = (r, s) -> s <> StopFuel ->
   exists pre tds, r_tr r = pre ++ EClose :: map ETeardown tds /\ ~ In EClose pre /\
